@@ -13,7 +13,10 @@ MANIFEST = dict(
     technique="Lean 4 refinement proof (association list -> Std.ExtHashMap) + model-based differential run of operation sequences against the real code with a controlled clock",
     design="5/C19",
 )
-GEN = ["SessionId"]
+GEN: list[str] = []
+# generate_session_id regenerated from source: next to the property (it trusts uuid4), Props/C19Supp.lean
+SUPP_GEN = ["SessionId"]
+SUPP_THEOREMS = ["c19_session_id_translated", "c19_session_id_format", "c19_session_id_injective"]
 THEOREMS = [
     "c19_refines_map",
     "c19_cleanup_exact",
@@ -24,10 +27,8 @@ THEOREMS = [
     "c19_activity_on_every_message_kind",
     "c19_initialize_without_id_leaves_a_session",
     "c19_repeated_id_overwrites",
-    "c19_session_id_translated",
-    "c19_session_id_format",
-    "c19_session_id_injective",
     "c19_managers_independent",
+    "c19_no_silent_removal",
 ]
 RULE = (
     "operation histories over {tick, create, get, update activity, delete, cleanup(max_age), list+mutate, clear, "
@@ -98,7 +99,7 @@ FALSY_AND_HOSTILE = [None, {}, [], "", 0, False, "%s %d", "{0} {}", "a\nb\r\nc",
                      "protocolVersion", "2025-03-26", 3600, {"name": "", "version": 0}, {"": None}]
 SYNTAX_TEXT = ['{"jsonrpc":"2.0","id":1,"result":{}}', "[NaN]", ":Infinity,", '\n{"id":1}', "data: x", "id: 1", ":", "{}", "null", '"']
 FALSY_AND_HOSTILE = FALSY_AND_HOSTILE + SYNTAX_TEXT + [{t: t for t in SYNTAX_TEXT}]
-R_METHODS = [("verif/raises-keyerror", 1), ("verif/raises-recursion", 0), ("ping", 3), ("ping", 0), ("ping", ""), ("nosuch/method", "x"), ("nosuch/method", 0), ("verif/raises", 1),
+R_METHODS = [("verif/reenter", 8), ("verif/reenter-then-raises", 9), ("verif/reenter", None), ("verif/raises-keyerror", 1), ("verif/raises-recursion", 0), ("ping", 3), ("ping", 0), ("ping", ""), ("nosuch/method", "x"), ("nosuch/method", 0), ("verif/raises", 1),
              ("verif/raises-empty", ""), ("verif/nonsense", 2), ("verif/silent", 5), ("verif/answers", 0),
              ("tools/list", 9), ("notifications/initialized", None), ("notifications/cancelled", None),
              ("verif/raises", None), ("notifications/initialized", 4), (None, 1), ("", 1)]
@@ -121,7 +122,7 @@ def seeded(rng, maxlen):
     for _ in range(n):
         r = rng.random()
         if r < 0.16:
-            ops.append(["T", rng.choice([0, 1, 1, 1, 2, horizon, horizon + 1, max(horizon - 1, 0), 3599, 3600, 3601])])
+            ops.append(["T", rng.choice([0, 1, 1, 1, 2, horizon, horizon + 1, max(horizon - 1, 0), 3599, 3600, 3601, 7200, 86400, 86400 * 400, -1, -3600])])
         elif r < 0.30:
             op = ["C", rng.choice([{"name": "c%d" % issued, "version": "1.0"}, {}, rand_json(rng), rng.choice(FALSY_AND_HOSTILE)]),
                   rng.choice(SUPPORTED + ["9999-01-01", "", "v", "%s", "{}"])]
@@ -315,10 +316,15 @@ class Histories(Suite):
                     ops += [T1, ["R", 0, me, mid]]
                 ops += [T1, ["R", 0, "ping", 1], ["R", 1, me, mid], T1, ["R", 1, "ping", 2], ["X", 1], ["N"], T1, T1, ["X", 1], ["N"]]
                 out.append({"ops": ops})
+        # directed: the environment moves — hours, a day, a year pass (or the clock is put back) between two operations
+        for jump in (60, 61, 3599, 3600, 3601, 7200, 86400, 86400 * 400, -3600):
+            for me, mid in [("ping", 1), ("nosuch/method", 2), ("verif/raises", 3), ("notifications/initialized", None), ("verif/reenter", 4)]:
+                out.append({"ops": [I, C, ["T", jump], ["R", 0, me, mid], ["G", 0], ["N"], ["U", 1], ["T", jump], ["I", 1, {"client": {}}, 5],
+                                    ["R", 0, me, mid], ["N"], ["X", 3600], ["N"], ["L", "none"]]})
         # directed: reuse — the same initialize envelope object dispatched three times, many sessions at once
         sp = {"client": {"name": "again"}, "version": "2025-06-18", "reuse": True}
         out.append({"ops": [["I", None, sp, 1], ["I", None, sp, 1], ["I", 0, sp, 1], ["N"], ["D", 1], ["I", 1, sp, 1], ["L", "pop"]]})
-        big = [C] * 40 + [T1] + [["U", k] for k in range(0, 40, 3)] + [T1, ["X", 1], ["N"], ["L", "both"]] + [C] * 40 + [["X", 0], K]
+        big = [C] * 120 + [T1] + [["U", k] for k in range(0, 120, 3)] + [T1, ["X", 1], ["N"], ["L", "both"]] + [C] * 120 + [["X", 0], K]
         out.append({"ops": big})
         if budget == "quick":
             out += list(words(A8, 5)) + list(words(A10, 4)) + list(words(A20, 3))
@@ -415,6 +421,7 @@ class IdFormat(Suite):
     """generate_session_id: the real method with uuid.uuid4 replaced by known uuids vs the function regenerated from its
     source (Gen/SessionId.lean); plus real draws.  Oracle: distinct uuids give distinct ids (ids are as unique as uuids)."""
     name = "idformat"
+    supplementary = True  # real method vs the function regenerated from its source: a difference is INFO, the oracle is not
 
     def cases(self, ctx, budget):
         rng = ctx.sub_rng("c19id", budget)
